@@ -516,6 +516,15 @@ impl SyncAssetTransfer {
             meshes_served: keys(&self.meshes),
             images_served: keys(&self.images),
             audios_served: keys(&self.audios),
+            pending: {
+                let mut v: Vec<(u8, Uuid, usize)> = self
+                    .pending
+                    .read()
+                    .map(|m| m.iter().map(|((c, id), (n, _))| (*c, *id, *n)).collect())
+                    .unwrap_or_default();
+                v.sort();
+                v
+            },
         }
     }
 
